@@ -254,6 +254,9 @@ def analyse(objs, cfg):
             elif s["bind"] in ("GLOBAL", "WEAK", "UNIQUE"):
                 defined.add(s["name"])
     external = sorted(undefined - defined)
+    # the C interface: global FUNCTION and OBJECT symbols with unmangled embedded_pairing_* names (what a C consumer links against)
+    c_exports = sorted({s["name"] for o in O for s in o.symbols
+                        if s["name"].startswith("embedded_pairing_") and s["ndx"] != "UND" and s["bind"] == "GLOBAL" and s["type"] in ("FUNC", "OBJECT")})
 
     writable = []       # (raw, size, rel, section)
     unnamed = []        # ("rel:section", bytes)
@@ -446,7 +449,7 @@ def analyse(objs, cfg):
             elif symname in wnames:
                 data_refs.append((symname, "%s:%s" % (o.rel, secname)))
 
-    return {"external": external, "writable": writable, "unnamed": unnamed, "stores": stores, "addrs": addrs,
+    return {"c_exports": c_exports, "external": external, "writable": writable, "unnamed": unnamed, "stores": stores, "addrs": addrs,
             "referenced": referenced, "data_refs": data_refs, "init_array": init_array,
             "objects": [rel for (rel, p) in objs]}
 
@@ -514,6 +517,8 @@ def main():
         out.append(lean_list("objects_" + cfg, "String", [lstr(x) for x in r["objects"]], "sources compiled"))
         out.append(lean_list("undefined_" + cfg, "String", [lstr(x) for x in r["external"]],
                              "symbols undefined in some object and defined in none (raw names)"))
+        out.append(lean_list("c_exports_" + cfg, "String", [lstr(x) for x in r["c_exports"]],
+                             "global function and object symbols with unmangled embedded_pairing_* names (the C interface as linked)"))
         und_dm = [(x, dm[x]) for x in r["external"] if dm[x] != x]
         out.append(lean_list("undefined_demangled_" + cfg, "(String × String)",
                              ["(%s, %s)" % (lstr(a), lstr(b)) for a, b in und_dm],
